@@ -7,6 +7,7 @@ import signal
 import traceback
 
 _FN = None
+_COV = None
 
 
 class CaseTimeout(BaseException):
@@ -21,7 +22,14 @@ def _init(modname, fname):
     from . import npshim
     npshim.setup_process()
     import importlib
-    global _FN
+    global _FN, _COV
+    if os.environ.get('VT_COVERAGE'):
+        # developer tool (tools/anchor_coverage.py): line coverage of phylib under the generated cases
+        import coverage
+        repo = os.environ.get('PHYLIB_REPO') or '/repo'
+        _COV = coverage.Coverage(data_file=os.path.join(os.environ['VT_COVERAGE'], 'cov'), data_suffix=True,
+                                 include=[os.path.join(repo, 'phylib', '*')])
+        _COV.start()
     _FN = getattr(importlib.import_module(modname), fname)
     signal.signal(signal.SIGALRM, _alarm)
 
@@ -48,6 +56,8 @@ def _run_chunk(args):
                 where = '%s:%d' % (os.path.basename(fr.filename), fr.lineno)
             obs = ('crash', type(e).__name__, ((str(e) or '')[:200] + ' @ ' + where))
         out.append(obs)
+    if _COV is not None:
+        _COV.save()
     return out
 
 
